@@ -1,6 +1,6 @@
 import Verif.Proofs.MemHist
 import Verif.Facts.MemSnap
-import Verif.Facts.MemAlloc
+import Verif.Facts.MemAllocSnap
 /-
   C07 — Restoring a snapshot brings back every byte of every bank and all banking state.
 -/
